@@ -809,6 +809,7 @@ class ParsedException:
                 next_line_stripped = next_line.strip()
                 if (
                         frame_re.match(next_line_stripped) or
+                        _repeated_re.match(next_line) or
                         # The exception message will not be indented
                         # This check is to avoid overrunning on eval-like
                         # tracebacks where the last frame doesn't have source
